@@ -54,6 +54,8 @@ pub struct ThrowInfo {
     pub call_lines: Vec<u32>,
     /// the error crossed a conduit whose frames the C12 oracle does not define
     pub crossed_opaque: bool,
+    /// no catch block of some try accepted the value and it was thrown again from there
+    pub rethrown: bool,
 }
 
 enum Abrupt {
@@ -88,6 +90,12 @@ pub struct Prediction {
     pub io_ops: u32,
     /// iterations of `Stmt::Storm` loops executed (the step cap of the execution allows for them)
     pub storm_iterations: u64,
+    /// the uncaught error is a runtime error that was caught and thrown again on its way: what
+    /// is thrown again is the TEXT of the error as the catch block saw it (possibly several
+    /// lines), so context the host appends afterwards does not end up on the first line
+    pub rethrown_runtime: bool,
+    /// an alternative first line of the error that is accepted as well (see above)
+    pub result_alt: Option<String>,
     /// ids of the tick sites in invocation order
     pub tick_ids: Vec<u32>,
     /// number of faults of the plan that fired
@@ -133,6 +141,8 @@ impl Default for Prediction {
             ticks: 0,
             io_ops: 0,
             storm_iterations: 0,
+            rethrown_runtime: false,
+            result_alt: None,
             tick_ids: vec![],
             fired: 0,
             error_occurred: false,
@@ -232,6 +242,7 @@ impl<'a> Model<'a> {
             }
             Err(Abrupt::Throw(t)) => {
                 m.out.result = Err(t.thrown.class());
+                m.out.rethrown_runtime = t.rethrown && matches!(t.thrown, Thrown::Runtime(_));
                 m.out.origin_line = Some(t.origin_line);
                 if !t.crossed_opaque && entry == Entry::Main {
                     let mut lines = vec![t.origin_line];
@@ -256,6 +267,7 @@ impl<'a> Model<'a> {
             origin_line: line,
             call_lines: vec![],
             crossed_opaque: false,
+            rethrown: false,
         }))
     }
 
@@ -800,6 +812,7 @@ impl<'a> Model<'a> {
                     info.origin_line = 0;
                     info.call_lines.clear();
                     info.crossed_opaque = true;
+                    info.rethrown = true;
                 }
             }
         }
